@@ -92,6 +92,20 @@ func (s *stepper) Begin(b replay.Behaviour, rng *rand.Rand) error {
 	}
 	fkey := make([]byte, keyLens[rng.Intn(len(keyLens))])
 	rng.Read(fkey)
+	if len(key) > 32 && rng.Intn(2) == 0 {
+		// a different key that shares its first 32 bytes with the real one
+		fkey = append(append([]byte{}, key[:32]...), make([]byte, len(key)-32)...)
+		rng.Read(fkey[32:])
+		if string(fkey) == string(key) {
+			fkey[len(fkey)-1] ^= 1
+		}
+	} else if rng.Intn(4) == 0 {
+		// a different key that shares its first 16 bytes
+		copy(fkey, key[:16])
+		if string(fkey) == string(key) {
+			fkey[len(fkey)-1] ^= 1
+		}
+	}
 	s.foreign, _ = s.newServer(fkey, ttl, cachecap)
 	s.streams = map[int]*stream{}
 	s.sigBody = nil
